@@ -6,7 +6,7 @@ import re
 
 from .pe import Evaluator, Toks, explore, vkey
 from .quote import CLOSE, templates_in
-from .src import Inconclusive, parse_snippets
+from .src import walk, Inconclusive, parse_snippets
 from .tables import EXPAND, IMPL_FILES
 
 # provenance suffix -> (role, placeholder source text)
@@ -106,6 +106,17 @@ def impl_table(repo):
     all_fns = {f.name for f in repo.fns(EXPAND)} | {f.name for f in repo.all_fns(IMPL_FILES)}
     opaque = {n for n in all_fns if n not in skels and n != "quote_trait"}
     opaque -= {"is_from", "is_ref", "is_into_existing", "is_variant", "maybe"}
+    # small token-fragment helpers (straight-line code around one quote!, no loops, no calls of other repo functions) are evaluated
+    # in place, so that extracting e.g. the error-type tokens into a helper does not hide them from the skeleton table
+    for f_ in repo.fns(EXPAND):
+        if f_.name in skels or f_.name == "quote_trait" or f_.name not in opaque:
+            continue
+        nodes = list(walk(f_.body))
+        if len(f_.body.get("stmts", [])) <= 8 and not any(n["k"] in ("For", "While", "Loop", "Closure") for n in nodes) and \
+                not any(n["k"] == "Call" and n["func"]["k"] == "Path" and n["func"]["segs"][-1] in all_fns for n in nodes) and \
+                not any(n["k"] == "MethodCall" and n["method"] in all_fns and n["method"] not in ("is_from", "is_ref", "is_into_existing") for n in nodes) and \
+                "TokenStream" in (f_.node["sig"].get("output") or "") and sum(1 for n in nodes if n["k"] == "Macro" and n["last"] == "quote") >= 1:
+            opaque.discard(f_.name)
 
     def mk():
         return Evaluator(repo, IMPL_FILES, opaque=opaque)
